@@ -325,7 +325,22 @@ def check_freshness(ctx):
                 continue
             done.add((cname, fi.id))
             w = repo.walker(inline_depth=ctx.depth, max_paths=ctx.max_paths)
-            paths = w.paths(fi.node, cls=ci)
+            # what _compile computes for this function to call (a clone function chosen once) is
+            # read through its definitions (method values only: data attributes stay symbolic)
+            reads = {n_.attr for n_ in ast.walk(fi.node) if isinstance(n_, ast.Attribute) and isinstance(n_.value, ast.Name) and n_.value.id == 'self' and isinstance(n_.ctx, ast.Load)}
+            heaps, seen_h = [], set()
+            for s_ in strats:
+                alts = repo.strategy_alternatives(s_, {a_ for a_ in reads if any(isinstance(v_, ast.Attribute) and v_.attr in ('clone',) for v_ in s_.get('alts', {}).get(a_, []))})
+                for h_ in (alts if alts is not None else [{}]):
+                    key_ = tuple(sorted((k, canon(v)) for k, v in h_.items()))
+                    if key_ not in seen_h:
+                        seen_h.add(key_)
+                        heaps.append(h_)
+            paths = []
+            for h_ in heaps or [{}]:
+                w = repo.walker(inline_depth=ctx.depth, max_paths=ctx.max_paths)
+                w.const_heap = h_
+                paths.extend(w.paths(fi.node, cls=ci))
             from ..effects import Roots
             roots = Roots(repo, fi, w)
             roots.fi_cls = ci
